@@ -1027,11 +1027,14 @@ def readGraph(input_file,
                     # between the braces, but anything else in there
                     # (edges, further braces, default attributes)
                     # would be dropped, and so would `1` in `1 -> { }`
+                    # (and `"a":n` between braces keeps its port)
                     if not isinstance(end, str) and (
                             end.get('edges') or end.get('subgraphs')
                             or not end.get('nodes')
                             or {'node', 'edge', 'graph'} & set(
-                                end.get('nodes', ()))):
+                                end.get('nodes', ()))
+                            or any(_dot_vertex_of_endpoint(name) != name
+                                   for name in end.get('nodes', ()))):
                         raise ValueError('Dot file must contain one graph, '
                                          'without subgraphs')
                 # `2:n` is vertex 2 (the port only matters to drawings)
